@@ -90,7 +90,9 @@ ReportClauses ==
   \cup
   { <<"R_indicator:" \o P.inds[i].name,
       LET r == IndValue(P, Schedule, FinalHist, lv0, P.inds[i])
-      IN  Len(Tr.fin.ind[i]) > 0 => (r[1] <= Tr.fin.ind[i][1] /\ Tr.fin.ind[i][1] <= r[2])>> : i \in Inds(P) }
+      IN  \* an indicator in a corner the documentation leaves open for this schedule (UnspecIndOne) is not judged
+          (Len(Tr.fin.ind[i]) > 0 /\ UnspecIndOne(P, Schedule, P.inds[i]) = {})
+             => (r[1] <= Tr.fin.ind[i][1] /\ Tr.fin.ind[i][1] <= r[2])>> : i \in Inds(P) }
   \cup
   { <<"R_assignment:" \o P.workers[P.uses[u].worker].name \o "/" \o P.tasks[P.uses[u].task].name,
       IF ust[u] = "done" THEN Tr.fin.uses[u] = <<ubs[u], ube[u]>> ELSE Len(Tr.fin.uses[u]) = 0>>
